@@ -234,10 +234,13 @@ impl Band {
     }
 
     pub async fn is_closed(&self) -> Result<bool> {
-        self.transport
-            .is_file(BAND_TAIL_FILENAME)
-            .await
-            .map_err(Error::from)
+        // A zero-length tail is what an interrupted write of the tail can leave behind:
+        // it does not close the band.
+        match self.transport.metadata(BAND_TAIL_FILENAME).await {
+            Ok(metadata) => Ok(metadata.kind == Kind::File && metadata.len > 0),
+            Err(err) if err.is_not_found() => Ok(false),
+            Err(err) => Err(err.into()),
+        }
     }
 
     pub fn id(&self) -> BandId {
@@ -265,7 +268,19 @@ impl Band {
 
     /// Return info about the state of this band.
     pub async fn get_info(&self) -> Result<Info> {
-        let tail_option: Option<Tail> = read_json(&self.transport, BAND_TAIL_FILENAME).await?;
+        // A zero-length tail is what an interrupted write of the tail can leave behind:
+        // the band is then not closed, rather than unreadable.
+        let tail_option: Option<Tail> = match self.transport.read(BAND_TAIL_FILENAME).await {
+            Ok(bytes) if bytes.is_empty() => None,
+            Ok(bytes) => Some(serde_json::from_slice(&bytes).map_err(|source| {
+                crate::jsonio::Error::Json {
+                    source,
+                    path: BAND_TAIL_FILENAME.into(),
+                }
+            })?),
+            Err(err) if err.is_not_found() => None,
+            Err(err) => return Err(err.into()),
+        };
         let start_time =
             Timestamp::from_second(self.head.start_time).map_err(|_| Error::InvalidMetadata {
                 details: format!("Invalid band start timestamp {:?}", self.head.start_time),
